@@ -624,13 +624,15 @@ impl Bgi {
         let mut pal = Palette::new();
         pal.clear();
         for c in colors {
-            pal.push(EGA_PALETTE[*c as usize].clone());
+            pal.push(EGA_PALETTE.get(*c as usize).cloned().unwrap_or_default());
         }
         self.palette = pal;
     }
 
     pub fn set_palette_color(&mut self, index: i32, color: u8) {
-        self.palette.set_color(index as u32, EGA_PALETTE[color as usize].clone());
+        if let (Some(color), 0..=255) = (EGA_PALETTE.get(color as usize), index) {
+            self.palette.set_color(index as u32, color.clone());
+        }
     }
 
     pub fn get_font_type(&self) -> FontType {
@@ -1138,6 +1140,9 @@ impl Bgi {
     }
 
     pub fn draw_poly(&mut self, points: &[Position]) {
+        if points.is_empty() {
+            return;
+        }
         let mut last_point = points[0];
         for point in points {
             self.line(last_point.x, last_point.y, point.x, point.y);
@@ -1625,10 +1630,10 @@ impl Bgi {
                     for y in 0..8 {
                         let mut pos = ((yf + y) * self.window.width + xf) as usize;
                         for x in 0..8 {
-                            if glyph.data[y as usize] & (1 << (7 - x)) != 0 {
+                            if glyph.data[y as usize] & (1 << (7 - x)) != 0 && pos < self.screen.len() {
                                 self.screen[pos] = self.color;
                             }
-                            pos += 1;
+                            pos = pos.wrapping_add(1);
                         }
                     }
                     xf += 8;
